@@ -1018,7 +1018,12 @@ func intrinsicAccepts(in *intrinsic, fd *funcDecl) (ok bool) {
 
 // constEval evaluates a constant expression at parse time with the interpreter itself.
 func (p *parser) constEval(e *expr) []slot {
-	iv := &inv{x: &execState{prog: p.prog, steps: 1 << 20}}
+	if p.civ == nil {
+		p.civ = &inv{x: &execState{prog: p.prog}, buf: make([]slot, 64)}
+	}
+	iv := p.civ
+	iv.top = 0
+	iv.x.steps = 1 << 20
 	v := iv.eval(e, nil)
 	out := make([]slot, len(v))
 	copy(out, v)
